@@ -65,6 +65,13 @@ Proof.
   split; [symmetry; apply firstn_skipn|]. unfold blen in *. rewrite firstn_length. lia.
 Qed.
 
+Lemma take_inv n r a b : take n r = Some (a, b) ->
+  a = firstn (N.to_nat n) r /\ b = skipn (N.to_nat n) r /\ n <= blen r.
+Proof.
+  unfold take. destruct (n <=? blen r) eqn:E; [|discriminate]. intros H. inversion H; subst.
+  repeat split. lia.
+Qed.
+
 (* ------------------------------------------------------------- slices *)
 
 Lemma slice_app_mid pre x post : slice (pre ++ x ++ post) (blen pre) (blen x) = x.
